@@ -135,6 +135,48 @@ def vmem(ctx, groups, maxlow, pin):
     ctx.prove("slab" not in text, "no-warning-for-slab")
 
 
+@harness("C08.vmem_twice", quick=[dict(second=s_) for s_ in ("other_watermark", "zoneinfo_unreadable")], timeout_ms=20000)
+def vmem_twice(ctx, second):
+    """two calls in one process with the fallback estimate in use (no MemAvailable line): each call's `available` follows the
+    /proc/zoneinfo and /proc/meminfo of THAT moment (the low watermarks change with vm.min_free_kbytes; the file may become
+    unreadable), never what an earlier call saw"""
+    k = simk.Kernel(ctx)
+    names = ["MemTotal", "MemFree", "Cached", "Active(file)", "Inactive(file)", "SReclaimable", "Buffers", "Shmem", "Active", "Inactive", "Slab"]
+    v = {n: ctx.int("kb_" + n.replace("(", "_").replace(")", ""), 0, 2**40) for n in names}
+    k.files["/proc/meminfo"] = "".join(f"{n}:   {k.num(v[n], True)} kB\n" for n in names)
+    low = [ctx.int("low_first_call", 0, 2**40), ctx.int("low_second_call", 0, 2**40)]
+
+    def zoneinfo(l):
+        return f"Node 0, zone   Z0\n  pages free     1\n        min      1\n        low      {k.num(l, True)}\n        high     3\n"
+
+    k.files["/proc/zoneinfo"] = zoneinfo(low[0])
+    with k.installed():
+        with warnings.catch_warnings(record=True):
+            warnings.simplefilter("always")
+            r1 = psutil.virtual_memory()
+            if second == "other_watermark":
+                k.files["/proc/zoneinfo"] = zoneinfo(low[1])
+            else:
+                k.files["/proc/zoneinfo"] = simk.oserr(13, "/proc/zoneinfo")
+            r2 = psutil.virtual_memory()
+    KB = 1024
+    g = lambda n: v[n] * KB   # noqa: E731
+    total, free = g("MemTotal"), g("MemFree")
+
+    def estimate(l):
+        if l is None:
+            return free + g("Cached")
+        wm = l * 4096
+        pagecache = g("Active(file)") + g("Inactive(file)")
+        return free - wm + pagecache - ctx.min(ctx.div(pagecache, 2), wm) + g("SReclaimable") - ctx.min(ctx.div(g("SReclaimable"), 2), wm)
+
+    def clamp(x):
+        return ctx.ite(x < 0, 0, ctx.ite(x > total, free, x))
+
+    ctx.prove(ctx.eq(r1.available, clamp(ctx.trunc(estimate(low[0])))), "available-fallback", detail="first call")
+    ctx.prove(ctx.eq(r2.available, clamp(ctx.trunc(estimate(low[1] if second == "other_watermark" else None)))), "available-fallback", detail=f"second call ({second})")
+
+
 @harness("C08.swap", quick=[dict(pin=None), dict(pin=0)], thorough=[dict(pin=None), dict(pin=0), dict(pin=4096)])
 def swap(ctx, pin):
     k = simk.Kernel(ctx)
